@@ -54,6 +54,18 @@ Proof.
 Qed.
 Print Assumptions C04_at_most_once.
 
+(* ... which is why the IDs must be fresh (C04_ids_fresh_across_restarts): however often an ID is listed within the window,
+   by whichever proxy life and for whichever request, exactly one worker is spawned for it - a second request that comes
+   under an ID already listed is never forwarded *)
+Theorem C04_reused_id_suppressed : forall (h : list (list Z)) x,
+  window_ok Z.eqb 1000 (concat h) -> In x (concat h) ->
+  count_occ Z.eq_dec (spawned Z.eqb K_now h) x = 1%nat.
+Proof.
+  intros h x W Hin. destruct (C04_at_most_once h W) as (_ & ND & Hiff).
+  apply NoDup_count_occ'; [exact ND|]. apply Hiff. exact Hin.
+Qed.
+Print Assumptions C04_reused_id_suppressed.
+
 (* "at most 1000 distinct IDs outstanding": such a history is within the window *)
 Theorem C04_few_distinct_ids : forall (s univ : list Z),
   (forall x, In x s -> In x univ) -> (length univ <= 1000)%nat -> window_ok Z.eqb 1000 s.
